@@ -79,7 +79,7 @@ SPEC = {
         "outside the generated streams",
         "3-D: the corner rows / dart ends / two-sided enumeration / one-entity-per-dart / panic-freedom theorems need "
         "Mirror + Sided (a face is 3-linked as a whole) + NoSelfGlue as hypotheses; Mirror is preserved by every editing "
-        "call (C02), Sided and NoSelfGlue are not proved invariants of the editing API here (three_link / three_unlink walk "
+        "call (C02); Sided and NoSelfGlue are NOT invariants under C02's guards alone (counterexample histories) and ARE preserved under the extra guard G13 of Props/C02b.lean (C02b_history_preserves_all) (three_link / three_unlink walk "
         "whole faces; three_link refuses two darts of one cycle) — the oracle evaluates them on every case "
         "(outside: face partially 3-linked / 3-linked to itself)",
         "the printed order of entities is the harness' (sorted); that bevy applies the spawn commands and the harness dumps "
